@@ -313,6 +313,311 @@ theorem all_or_nothing (E : Env) (fs0 : FS) (F fuel : Nat) (target : P) (hp : Pr
             simp only [h3, if_false] at hfail
             simp at hfail
 
+/-! ### the destination holds only faithful copies -/
+
+/-- what a file below the destination may be: the localized kustomization of a root, or a byte-identical copy of
+    the source file at the mirrored path -/
+def Faithful (E : Env) (fs0 : FS) (x : P) (c : String) : Prop :=
+  c = E.kustContent ∨ ∃ p, E.scope <+: p ∧ x = E.newDir ++ p.drop E.scope.length ∧ fs0 p = some (.file c)
+
+structure Faith (E : Env) (fs0 : FS) (s : St) : Prop where
+  files : ∀ x c, E.newDir <+: x → s.fs x = some (.file c) → Faithful E fs0 x c
+  destDir : ∀ c, s.fs E.newDir ≠ some (.file c)
+
+theorem doMut_faith (E : Env) (fs0 : FS) (F : Nat) (s : St) (m : Mut) (hf : Faith E fs0 s)
+    (hw : ∀ p c, m = .write p c → p ≠ E.newDir ∧ Faithful E fs0 p c) : Faith E fs0 (doMut F s m).1 := by
+  unfold doMut
+  simp only
+  split
+  · exact ⟨hf.files, hf.destDir⟩
+  · cases ha : applyMut s.fs m with
+    | none => exact ⟨hf.files, hf.destDir⟩
+    | some fs' =>
+      simp only
+      cases m with
+      | mkdir p =>
+        simp only [applyMut] at ha
+        split at ha
+        · simp only [Option.some.injEq] at ha; subst ha
+          constructor
+          · intro x c hx h; simp only at h; split at h
+            · simp at h
+            · exact hf.files x c hx h
+          · intro c h; simp only at h; split at h
+            · simp at h
+            · exact hf.destDir c h
+        · simp at ha
+      | mkdirAll p =>
+        simp only [applyMut] at ha
+        split at ha
+        · simp only [Option.some.injEq] at ha; subst ha
+          constructor
+          · intro x c hx h; simp only at h; split at h
+            · simp at h
+            · exact hf.files x c hx h
+          · intro c h; simp only at h; split at h
+            · simp at h
+            · exact hf.destDir c h
+        · simp at ha
+      | write p c0 =>
+        obtain ⟨hne, hfa⟩ := hw p c0 rfl
+        simp only [applyMut] at ha
+        split at ha
+        · simp only [Option.some.injEq] at ha; subst ha
+          constructor
+          · intro x c hx h; simp only at h; split at h
+            · rename_i hxp; subst hxp
+              simp only [Option.some.injEq, Ent.file.injEq] at h; subst h; exact hfa
+            · exact hf.files x c hx h
+          · intro c h; simp only at h; split at h
+            · rename_i hxp; exact hne hxp.symm
+            · exact hf.destDir c h
+        · simp at ha
+      | removeAll p =>
+        simp only [applyMut, Option.some.injEq] at ha; subst ha
+        constructor
+        · intro x c hx h; simp only at h; split at h
+          · simp at h
+          · exact hf.files x c hx h
+        · intro c h; simp only at h; split at h
+          · simp at h
+          · exact hf.destDir c h
+
+theorem not_write_mkdirAll (E : Env) (fs0 : FS) (q : P) :
+    ∀ p c, Mut.mkdirAll q = .write p c → p ≠ E.newDir ∧ Faithful E fs0 p c := by intro p c h; cases h
+theorem not_write_mkdir (E : Env) (fs0 : FS) (q : P) :
+    ∀ p c, Mut.mkdir q = .write p c → p ≠ E.newDir ∧ Faithful E fs0 p c := by intro p c h; cases h
+theorem not_write_removeAll (E : Env) (fs0 : FS) (q : P) :
+    ∀ p c, Mut.removeAll q = .write p c → p ≠ E.newDir ∧ Faithful E fs0 p c := by intro p c h; cases h
+
+theorem append_singleton_ne (a b : P) (n : String) : a ++ b ++ [n] ≠ a := by
+  intro h
+  have := congrArg List.length h
+  simp at this
+
+/-- what `loadFile` returns is a file of the current file system at `root ++ d ++ [n]`, outside the destination -/
+theorem loadFileAt_spec (E : Env) (fs : FS) (root p : P) (d : P) (n c : String)
+    (hdest : ∀ c, fs E.newDir ≠ some (.file c))
+    (h : loadFileAt E fs root p = some (d, n, c)) :
+    fs (root ++ d ++ [n]) = some (.file c) ∧ ¬ E.newDir <+: (root ++ d ++ [n]) := by
+  unfold loadFileAt at h
+  split at h
+  · simp at h
+  · split at h
+    · rename_i c' hfile
+      split at h
+      · rename_i hcond
+        split at h
+        · simp at h
+        · rename_i name dr hrev
+          simp only [Option.some.injEq, Prod.mk.injEq] at h
+          obtain ⟨rfl, rfl, rfl⟩ := h
+          have hpre : root <+: p := List.isPrefixOf_iff_prefix.mp hcond.1
+          have hdrop : p.drop root.length = dr.reverse ++ [name] := by
+            have := congrArg List.reverse hrev
+            simpa using this
+          have hpeq : p = root ++ dr.reverse ++ [name] := by
+            obtain ⟨t, rfl⟩ := hpre
+            simp only [List.drop_left] at hdrop
+            rw [hdrop, List.append_assoc]
+          rw [← hpeq]
+          refine ⟨hfile, ?_⟩
+          intro hnd
+          have hc2 : E.newDir.isPrefixOf p.dropLast = false := by simpa using hcond.2
+          obtain ⟨t, ht⟩ := hnd
+          rcases List.eq_nil_or_concat t with rfl | ⟨t', last, rfl⟩
+          · simp only [List.append_nil] at ht
+            exact hdest c' (ht ▸ hfile)
+          · have : p.dropLast = E.newDir ++ t' := by
+              rw [← ht, List.concat_eq_append, ← List.append_assoc, List.dropLast_concat]
+            have hpp : E.newDir <+: p.dropLast := ⟨t', this.symm⟩
+            rw [List.isPrefixOf_iff_prefix.mpr hpp] at hc2
+            exact absurd hc2 (by simp)
+      · simp at h
+    · simp at h
+
+theorem loadFile_spec (E : Env) (fs : FS) (root : P) (raw : String) (d : P) (n c : String)
+    (hdest : ∀ c, fs E.newDir ≠ some (.file c))
+    (h : loadFile E fs root raw = some (d, n, c)) :
+    fs (root ++ d ++ [n]) = some (.file c) ∧ ¬ E.newDir <+: (root ++ d ++ [n]) :=
+  loadFileAt_spec E fs root _ d n c hdest h
+
+theorem copyFile_faith (E : Env) (fs0 : FS) (F : Nat) (s : St) (root d : P) (n c : String)
+    (hf : Faith E fs0 s) (hfa : Faithful E fs0 (dstOf E root ++ d ++ [n]) c) :
+    Faith E fs0 (copyFile E F s root d n c).1 := by
+  unfold copyFile
+  simp only
+  have f1 := doMut_faith E fs0 F s (.mkdirAll (dstOf E root ++ d)) hf (not_write_mkdirAll E fs0 _)
+  split
+  · exact f1
+  · apply doMut_faith E fs0 F _ _ f1
+    intro p c' h
+    simp only [Mut.write.injEq] at h
+    obtain ⟨rfl, rfl⟩ := h
+    refine ⟨?_, hfa⟩
+    unfold dstOf
+    rw [List.append_assoc, List.append_assoc]
+    intro h
+    have := congrArg List.length h
+    simp at this
+
+/-- the mirror of a file below a root inside the scope -/
+theorem faithful_of_load (E : Env) (fs0 : FS) (s : St) (root d : P) (n c raw : String)
+    (hsc : E.scope <+: root) (hi : Inv E fs0 s) (hf : Faith E fs0 s)
+    (h : loadFile E s.fs root raw = some (d, n, c)) : Faithful E fs0 (dstOf E root ++ d ++ [n]) c := by
+  obtain ⟨h1, h2⟩ := loadFile_spec E s.fs root raw d n c hf.destDir h
+  right
+  refine ⟨root ++ d ++ [n], ?_, ?_, ?_⟩
+  · exact hsc.trans ((List.prefix_append _ _).trans (List.prefix_append _ _))
+  · obtain ⟨t, rfl⟩ := hsc
+    simp [dstOf, List.append_assoc]
+  · rw [← hi.outside _ h2]; exact h1
+
+def Both (E : Env) (fs0 : FS) (s : St) : Prop := Inv E fs0 s ∧ Faith E fs0 s
+
+def KeepsB (E : Env) (fs0 : FS) (f : St → List P → P → St × Bool) : Prop :=
+  ∀ s stack root, E.scope <+: root → Both E fs0 s → Both E fs0 (f s stack root).1
+
+def KeepsRootB (E : Env) (fs0 : FS) (f : St → List P → P → String → St × Bool) : Prop :=
+  ∀ s stack root raw, E.scope <+: root → Both E fs0 s → Both E fs0 (f s stack root raw).1
+
+theorem newRoot_scope (E : Env) (fs : FS) (stack : List P) (root : P) (raw : String) (r : P)
+    (h : newRoot E fs stack root raw = some r) : E.scope <+: r := by
+  unfold newRoot at h
+  simp only at h
+  split at h
+  · simp at h
+  · split at h
+    · simp at h
+    · split at h
+      · rename_i hc
+        simp only [Option.some.injEq] at h; subst h
+        exact List.isPrefixOf_iff_prefix.mp hc.2.2.1
+      · simp at h
+
+theorem localizeRootWith_keepsB (E : Env) (fs0 : FS) (F : Nat) (rec : St → List P → P → St × Bool) (hp : Pre E fs0)
+    (hr : KeepsB E fs0 rec) : KeepsRootB E fs0 (localizeRootWith E F rec) := by
+  intro s stack root raw _ hb
+  unfold localizeRootWith
+  split
+  · exact hb
+  · rename_i r hnr
+    simp only
+    have i1 := doMut_inv E fs0 F s (.mkdirAll (dstOf E r)) hp hb.1 (dstOf_prefix E r)
+    have f1 := doMut_faith E fs0 F s (.mkdirAll (dstOf E r)) hb.2 (not_write_mkdirAll E fs0 _)
+    split
+    · exact ⟨i1, f1⟩
+    · exact hr _ _ _ (newRoot_scope E s.fs stack root raw r hnr) ⟨i1, f1⟩
+
+theorem localizeOne_keepsB (E : Env) (fs0 : FS) (F : Nat) (rootFn : St → List P → P → String → St × Bool)
+    (hp : Pre E fs0) (hr : KeepsRootB E fs0 rootFn) (s : St) (stack : List P) (root : P) (ref : Ref)
+    (hsc : E.scope <+: root) (hb : Both E fs0 s) : Both E fs0 (localizeOne E F rootFn s stack root ref).1 := by
+  cases ref with
+  | file raw =>
+    simp only [localizeOne]
+    split
+    · exact hb
+    · split
+      · rename_i d n c hl
+        exact ⟨copyFile_inv E fs0 F s root _ _ _ hp hb.1,
+          copyFile_faith E fs0 F s root _ _ _ hb.2 (faithful_of_load E fs0 s root d n c raw hsc hb.1 hb.2 hl)⟩
+      · exact hb
+  | root raw =>
+    simp only [localizeOne]
+    split
+    · exact hb
+    · exact hr _ _ _ _ hsc hb
+  | res raw =>
+    simp only [localizeOne]
+    split
+    · rename_i d n c hl
+      split
+      · exact ⟨copyFile_inv E fs0 F s root _ _ _ hp hb.1,
+          copyFile_faith E fs0 F s root _ _ _ hb.2 (faithful_of_load E fs0 s root d n c raw hsc hb.1 hb.2 hl)⟩
+      · exact hr _ _ _ _ hsc hb
+    · exact hr _ _ _ _ hsc hb
+
+theorem localizeRefs_keepsB (E : Env) (fs0 : FS) (F : Nat) (rootFn : St → List P → P → String → St × Bool)
+    (hp : Pre E fs0) (hr : KeepsRootB E fs0 rootFn) :
+    ∀ (refs : List Ref) (s : St) (stack : List P) (root : P), E.scope <+: root → Both E fs0 s →
+      Both E fs0 (localizeRefs E F rootFn s stack root refs).1 := by
+  intro refs
+  induction refs with
+  | nil => intro s stack root _ hb; simpa [localizeRefs] using hb
+  | cons ref rest ih =>
+    intro s stack root hsc hb
+    have hfirst := localizeOne_keepsB E fs0 F rootFn hp hr s stack root ref hsc hb
+    unfold localizeRefs
+    simp only
+    split
+    · exact hfirst
+    · exact ih _ _ _ hsc hfirst
+
+theorem localize_keepsB (E : Env) (fs0 : FS) (F : Nat) (hp : Pre E fs0) :
+    ∀ fuel, KeepsB E fs0 (localize E F fuel) := by
+  intro fuel
+  induction fuel with
+  | zero => intro s stack root _ hb; simpa [localize] using hb
+  | succ f ih =>
+    intro s stack root hsc hb
+    unfold localize
+    split
+    · exact hb
+    · rename_i name refs _
+      simp only
+      split
+      · exact hb
+      · have b1 := localizeRefs_keepsB E fs0 F (localizeRootWith E F (localize E F f)) hp
+          (localizeRootWith_keepsB E fs0 F _ hp ih) refs s (root :: stack) root hsc hb
+        split
+        · exact b1
+        · refine ⟨doMut_inv E fs0 F _ (.write _ _) hp b1.1 ((dstOf_prefix E root).trans (List.prefix_append _ _)), ?_⟩
+          apply doMut_faith E fs0 F _ _ b1.2
+          intro p c h
+          simp only [Mut.write.injEq] at h
+          obtain ⟨rfl, rfl⟩ := h
+          refine ⟨?_, Or.inl rfl⟩
+          unfold dstOf
+          rw [List.append_assoc]
+          intro h
+          have := congrArg List.length h
+          simp at this
+
+/-- **destination_faithful**: whatever the run did — complete, failed or interrupted by a failing operation —
+    every file below the destination is either the localized kustomization file of a root or a byte-identical copy
+    of the source file at the mirrored path inside the scope.  (With `source_unchanged` this is the file-level half
+    of build equivalence; that every reference is present is the other half, sampled by the oracle.) -/
+theorem destination_faithful (E : Env) (fs0 : FS) (F fuel : Nat) (target : P) (hp : Pre E fs0)
+    (hsc : E.scope <+: target) :
+    ∀ x c, E.newDir <+: x → (run E F fuel fs0 target).1.fs x = some (.file c) → Faithful E fs0 x c := by
+  have hb0 : Both E fs0 { fs := fs0 } := by
+    refine ⟨inv_init E fs0, ?_, ?_⟩
+    · intro x c hx h; have := hp.fresh x hx; simp_all
+    · intro c h; have := hp.fresh _ (List.prefix_refl E.newDir); simp_all
+  have key : Both E fs0 (run E F fuel fs0 target).1 := by
+    unfold run
+    simp only
+    split
+    · exact hb0
+    · have b1 : Both E fs0 (doMut F { fs := fs0 } (.mkdir E.newDir)).1 :=
+        ⟨doMut_inv E fs0 F _ _ hp hb0.1 (List.prefix_refl _), doMut_faith E fs0 F _ _ hb0.2 (not_write_mkdir E fs0 _)⟩
+      split
+      · exact b1
+      · have hclean : ∀ s, Both E fs0 s → Both E fs0 (doMut F s (.removeAll E.newDir)).1 :=
+          fun s hs => ⟨doMut_inv E fs0 F s _ hp hs.1 (List.prefix_refl _), doMut_faith E fs0 F s _ hs.2 (not_write_removeAll E fs0 _)⟩
+        split
+        · exact hclean _ b1
+        · have b2 : Both E fs0 (doMut F _ (.mkdirAll (dstOf E target))).1 :=
+            ⟨doMut_inv E fs0 F _ _ hp b1.1 (dstOf_prefix E target), doMut_faith E fs0 F _ _ b1.2 (not_write_mkdirAll E fs0 _)⟩
+          split
+          · exact hclean _ b2
+          · have b3 := localize_keepsB E fs0 F hp fuel _ [] target hsc b2
+            split
+            · exact hclean _ b3
+            · exact b3
+  exact key.2.files
+
+
 /-! ### a concrete run (non-vacuity): the hypotheses hold and every outcome occurs -/
 
 def exFs : FS := fun x =>
